@@ -79,6 +79,7 @@ inductive Site
   | eCtx1           -- ValidateEnterpriseTx  context.Args[1]
   | eCheckArgs0     -- checkArgs             ci.Args[0].(string)
   | eRpcVals0       -- checkRPCPermissions   values[0]
+  | eCc0            -- ValidateChangeCluster ci.Args[0]
   -- contract/enterprise/config.go, admin.go
   | cRpcSplit       -- Conf.Validate  strings.Split(v, ":")[1]
   | gAdmins         -- getAdmins      data[i : i+types.AddressLength]
@@ -242,6 +243,7 @@ structure Env where
   stakingMin : Nat
   voteRec : List Bool          -- old vote record (Amount ≠ nil) per issue: voteBP, BPCOUNT, STAKINGMIN, GASPRICE, NAMEPRICE
   oldVoteOk : List Bool        -- every candidate of that old record has an entry in the issue's tally
+  voteAmt : List Nat           -- amount of that old record
   candCap : Nat                -- cap() of the candidate buffer newVoteCmd builds with append (Go runtime fact)
   -- aergo.name
   namePrice : Nat
@@ -392,14 +394,17 @@ def typesValidate (u : List Site) (e : Env) : Outcome Unit := do
 
 /-- `ValidateWithSenderState`, governance case. `strict`: the caller treats ErrTxNonceToohigh as an
 error (executeTx) or not (mempool.put). -/
-def senderState (e : Env) (strict : Bool) : Outcome Unit := do
-  rejectIf (e.stNonce + 1 > e.tx.nonce) .nonce
+def senderGov (e : Env) : Outcome Unit :=
   if e.tx.recipient == aergoSystem then
     match unmarshalCallInfo e.tx.payload with
     | none => .reject .payload
     | some ci => rejectIf (ci.name == str% "v1stake" && e.tx.amount > e.balance) .balance
   else if e.tx.recipient == aergoName || e.tx.recipient == aergoEnterprise then .ok ()
   else .reject .recipient
+
+def senderState (e : Env) (strict : Bool) : Outcome Unit := do
+  rejectIf (e.stNonce + 1 > e.tx.nonce) .nonce
+  senderGov e
   rejectIf (strict && e.stNonce + 1 < e.tx.nonce) .nonce
 
 /-! ### contract/system -/
@@ -482,21 +487,42 @@ def candTotal (e : Env) (args : List JVal) : Nat :=
 `n` and capacity `cap`: panics iff the last chunk runs beyond the capacity. -/
 def chunksFit (n cap : Nat) : Bool := (n + peerIDLength - 1) / peerIDLength * peerIDLength ≤ cap
 
+/-- `cmd.sub(oldvote)` on the sender's old record of issue `i` (when `cond`): `SubVote` subtracts from
+the tally entry of every candidate of the record; a candidate without entry is a nil `*big.Int`. -/
+def subOld (e : Env) (i : Nat) (cond : Bool) : Outcome Unit :=
+  if cond && e.voteRec.getD i false && !e.oldVoteOk.getD i true then .panic .rSubNil else .ok ()
+
+/-- `cmd.add(newVote)` of a BP vote: `AddVote` walks the candidate buffer in 39-byte steps. -/
+def addNew (e : Env) (proposal : Bool) (args : List JVal) : Outcome Unit :=
+  if !proposal && !chunksFit (candTotal e args) e.candCap then .panic .rAddSlice else .ok ()
+
+/-- Argument handling of `newVoteCmd`. -/
+def voteArgs (c : SysCtx) : Outcome Unit :=
+  if c.proposal then do
+    let _ ← sliceFrom .vDaoSlice c.ci.args 1
+    let _ ← argStr .vDaoId c.ci.args 0
+    let _ ← argStr .vDaoVal c.ci.args 1
+    pure ()
+  else asStrAll .vBpCand c.ci.args
+
+/-- `refreshAllVote` (unstaking): every old vote larger than the remaining stake is taken out of its
+tally (`cmd.sub(oldvote)`) and put back with the new amount; issues in catalog order. -/
+def refreshAllVote (e : Env) (newStaked : Nat) : List Nat → Outcome Unit
+  | [] => .ok ()
+  | i :: r => do
+    subOld e i (e.voteAmt.getD i 0 > newStaked)
+    refreshAllVote e newStaked r
+
 /-- `newSysCmd` + `cmd.run()` after a successful validation. -/
 def sysRun (e : Env) (c : SysCtx) : Outcome Unit :=
   match c.op with
-  | .stake | .unstake => .ok ()
+  | .stake => .ok ()
+  | .unstake => refreshAllVote e (e.staked - e.tx.amount) [0, 1, 2, 3, 4]
   | .voteBP | .voteDAO => do
-    if c.proposal then do
-      let _ ← sliceFrom .vDaoSlice c.ci.args 1
-      let _ ← argStr .vDaoId c.ci.args 0
-      let _ ← argStr .vDaoVal c.ci.args 1
-    else
-      asStrAll .vBpCand c.ci.args
+    voteArgs c
     -- run(): updateVoteResult: sub(old vote), add(new vote)
-    if e.voteRec.getD c.issue false && !e.oldVoteOk.getD c.issue true then .panic .rSubNil
-    if !c.proposal && !chunksFit (candTotal e c.ci.args) e.candCap then .panic .rAddSlice
-    pure ()
+    subOld e c.issue true
+    addNew e c.proposal c.ci.args
 
 /-- `system.ExecuteSystemTx` -/
 def sysExecute (u : List Site) (e : Env) : Outcome Unit := do
@@ -506,35 +532,44 @@ def sysExecute (u : List Site) (e : Env) : Outcome Unit := do
 /-! ### contract/name -/
 
 /-- `name.ValidateNameTx` -/
+def nameState (e : Env) (ci : CallInfo) : Outcome Unit :=
+  if ci.name == str% "v1createName" then do
+    rejectIf (e.namePrice > e.tx.amount) .state
+    rejectIf e.nameOwned .state
+  else if ci.name == str% "v1updateName" then do
+    rejectIf (e.namePrice > e.tx.amount) .state
+    rejectIf (!e.acctEqName && !e.acctIsOwner) .state
+  else if ci.name == str% "v1setOwner" then
+    rejectIf e.contractOwned .state
+  else .reject .payload
+
 def nameValidate (e : Env) : Outcome CallInfo := do
   rejectIf (e.balance < e.tx.amount) .balance
   match unmarshalCallInfo e.tx.payload with
   | none => .reject .payload
   | some ci => do
     let _nameArg ← argStr .nVal0 ci.args 0
-    if ci.name == str% "v1createName" then do
-      rejectIf (e.namePrice > e.tx.amount) .state
-      rejectIf e.nameOwned .state
-    else if ci.name == str% "v1updateName" then do
-      rejectIf (e.namePrice > e.tx.amount) .state
-      rejectIf (!e.acctEqName && !e.acctIsOwner) .state
-    else if ci.name == str% "v1setOwner" then
-      rejectIf e.contractOwned .state
-    else .reject .payload
+    nameState e ci
     pure ci
 
 /-- `name.ExecuteNameTx`: argument handling (what CreateName/UpdateName/SetContractOwner then do
 to the state is not modelled: it has no payload-dependent indexing). -/
-def nameExecute (e : Env) : Outcome Unit := do
-  let ci ← nameValidate e
+def nameExecArgs (ci : CallInfo) : Outcome Unit :=
   if ci.name == str% "v1createName" then do
     let _ ← argStr .nExCreate0 ci.args 0
+    pure ()
   else if ci.name == str% "v1updateName" then do
     let _ ← argStr .nExUpd0 ci.args 0
     let _ ← argStr .nExUpd1 ci.args 1
+    pure ()
   else if ci.name == str% "v1setOwner" then do
     let _ ← argStr .nExOwner0 ci.args 0
-  pure ()
+    pure ()
+  else .ok ()
+
+def nameExecute (e : Env) : Outcome Unit := do
+  let ci ← nameValidate e
+  nameExecArgs ci
 
 /-! ### contract/enterprise -/
 
@@ -549,9 +584,9 @@ def hasValue (c : Option Conf) (v : Str) : Bool :=
   | none => false
 
 /-- `getAdmins` + `checkAdmin`. `allowUnset`: the caller tolerates ErrTxEnterpriseAdminIsNotSet. -/
-def checkAdmin (e : Env) (allowUnset : Bool) : Outcome Unit := do
+def checkAdmin (e : Env) (allowUnset : Bool) : Outcome Unit :=
   if !e.adminsReadable then .panic .gAdmins
-  if e.admins.isEmpty then rejectIf (!allowUnset) .state
+  else if e.admins.isEmpty then rejectIf (!allowUnset) .state
   else rejectIf (!e.senderInAdmins) .state
 
 /-- `for _, v := range c.Values { if strings.Contains(strings.ToUpper(strings.Split(v, ":")[1]), "W") { return nil } }`
@@ -575,21 +610,25 @@ def enterpriseKey (k : Str) : Bool :=
   k == str% "RPCPERMISSIONS" || k == str% "P2PWHITE" || k == str% "P2PBLACK" || k == str% "ACCOUNTWHITE"
 
 /-- `checkRPCPermissions` -/
-def checkRpc (e : Env) (i : Nat) (v : Str) : Outcome Bool := do
-  let values := splitColon v
-  if values.length != 2 then pure false else
-  let _ ← idx .eRpcVals0 values 0
-  pure (e.arg i).b64Ok
+def checkRpc (e : Env) (i : Nat) (v : Str) : Outcome Bool :=
+  if (splitColon v).length != 2 then .ok false
+  else do
+    let _ ← idx .eRpcVals0 (splitColon v) 0
+    pure (e.arg i).b64Ok
 
 /-- `op(arg)` of checkArgs for the arguments after the key (`i` = index in `ci.Args`). -/
+def checkOp (e : Env) (key : Str) (i : Nat) (v : Str) : Outcome Unit :=
+  if key == str% "P2PWHITE" || key == str% "P2PBLACK" then rejectIf (!(e.arg i).listOk) .args
+  else if key == str% "ACCOUNTWHITE" then rejectIf (e.arg i).addr.isNone .args
+  else if key == str% "RPCPERMISSIONS" then do
+    let ok ← checkRpc e i v
+    rejectIf (!ok) .args
+  else .ok ()
+
 def checkOps (e : Env) (key : Str) : Nat → List Str → Outcome Unit
   | _, [] => .ok ()
   | i, v :: r => do
-    if key == str% "P2PWHITE" || key == str% "P2PBLACK" then rejectIf (!(e.arg i).listOk) .args
-    else if key == str% "ACCOUNTWHITE" then rejectIf (e.arg i).addr.isNone .args
-    else if key == str% "RPCPERMISSIONS" then do
-      let ok ← checkRpc e i v
-      rejectIf (!ok) .args
+    checkOp e key i v
     checkOps e key (i + 1) r
 
 /-- `checkArgs`: the strings appended to `context.Args`, or a rejection. -/
@@ -608,8 +647,9 @@ def checkArgs (u : List Site) (e : Env) (ci : CallInfo) : Outcome (List Str) := 
 /-- `ValidateChangeCluster` + `CcArgument.parse` -/
 def validateChangeCluster (e : Env) (ci : CallInfo) : Outcome Unit := do
   rejectIf (ci.args.length != 1) .args
-  match ci.args with
-  | [.obj kvs] =>
+  let a0 ← idx .eCc0 ci.args 0
+  match a0 with
+  | .obj kvs =>
     let get (k : Str) : Option Str := match objGet kvs k with
       | some (.str s) => some s
       | _ => none
@@ -629,6 +669,22 @@ def validateChangeCluster (e : Env) (ci : CallInfo) : Outcome Unit := do
       else .reject .args
   | _ => .reject .args
 
+/-- State checks of appendAdmin / removeAdmin. -/
+def adminState (e : Env) (ci : CallInfo) (arg : Str) (address : List Nat) : Outcome Unit :=
+  if ci.name == str% "appendAdmin" then
+    rejectIf (e.admins.contains address) .state
+  else do
+    rejectIf (!e.admins.contains address) .state
+    match e.confWhite with
+    | some c => rejectIf (c.on && c.values.contains arg) .state
+    | none => .ok ()
+
+/-- setConf validates the *stored* configuration (with `context.Conf` = the new one). -/
+def validateStored (e : Env) (key : Str) (newConf : Conf) : Outcome Unit :=
+  match e.confKey with
+  | some stored => confValidate e key stored (some newConf)
+  | none => .ok ()
+
 /-- `enterprise.ValidateEnterpriseTx` -/
 def entValidate (u : List Site) (e : Env) : Outcome EntCtx :=
   match unmarshalCallInfo e.tx.payload with
@@ -642,13 +698,7 @@ def entValidate (u : List Site) (e : Env) : Outcome EntCtx :=
       rejectIf address.isEmpty .args
       fixGuard u .gAdmins (address.length != addressLength) .args               -- proposed repair: 33-byte admins only
       checkAdmin e true
-      if ci.name == str% "appendAdmin" then
-        rejectIf (e.admins.contains address) .state
-      else do
-        rejectIf (!e.admins.contains address) .state
-        match e.confWhite with
-        | some c => rejectIf (c.on && c.values.contains arg) .state
-        | none => pure ()
+      adminState e ci arg address
       pure { ci, args := [arg] }
     else if ci.name == str% "setConf" then do
       rejectIf (ci.args.length ≤ 1) .args
@@ -660,9 +710,7 @@ def entValidate (u : List Site) (e : Env) : Outcome EntCtx :=
         | some c => { c with values := vals }
         | none => { on := false, values := vals }
       let _ ← idx .eCtx0 ctxArgs 0
-      match e.confKey with
-      | some stored => confValidate e key stored (some newConf)
-      | none => pure ()
+      validateStored e key newConf
       pure { ci, args := ctxArgs }
     else if ci.name == str% "appendConf" || ci.name == str% "removeConf" then do
       rejectIf (ci.args.length != 2) .args
@@ -681,7 +729,8 @@ def entValidate (u : List Site) (e : Env) : Outcome EntCtx :=
       pure { ci, args := ctxArgs }
     else if ci.name == str% "enableConf" then do
       rejectIf (ci.args.length != 2) .args
-      match str? (ci.args.getD 0 .null) with
+      let a0 ← idx .eEnable0 ci.args 0
+      match str? a0 with
       | none => .reject .args
       | some _ => do
         let arg0 ← argStr .eEnable0 ci.args 0
@@ -704,18 +753,24 @@ def entValidate (u : List Site) (e : Env) : Outcome EntCtx :=
     else .reject .payload
 
 /-- `enterprise.ExecuteEnterpriseTx`: argument handling after the validation. -/
-def entExecute (u : List Site) (e : Env) : Outcome Unit := do
-  let c ← entValidate u e
+def entExecArgs (c : EntCtx) : Outcome Unit :=
   let n := c.ci.name
   if n == str% "appendAdmin" || n == str% "removeAdmin" || n == str% "setConf" || n == str% "appendConf"
       || n == str% "removeConf" then do
     let _ ← idx .xCtx0 c.args 0
+    pure ()
   else if n == str% "enableConf" then do
     let _ ← idx .xCtx0 c.args 0
     let _ ← idx .xEnable1 c.ci.args 1
+    pure ()
   else if n == str% "changeCluster" then do
     let _ ← idx .xAny0 (List.replicate c.anyLen ()) 0
-  pure ()
+    pure ()
+  else .ok ()
+
+def entExecute (u : List Site) (e : Env) : Outcome Unit := do
+  let c ← entValidate u e
+  entExecArgs c
 
 /-! ### The two entry points of the property -/
 
@@ -726,13 +781,15 @@ def poolGov (u : List Site) (e : Env) : Outcome Unit :=
   else if e.tx.recipient == aergoEnterprise then do let _ ← entValidate u e
   else .ok ()
 
-/-- Pool admission of a governance transaction: `verifyTx` (Validate + signature), then `put`'s
-`validateTx`. -/
+/-- Pool admission: `verifyTx` (Validate + signature), then `put`'s `validateTx`.  Only governance
+transactions (type 1) reach governance code; the pool's checks for the other types are not modelled. -/
 def admit (u : List Site) (e : Env) : Outcome Unit := do
   typesValidate u e
   rejectIf (!e.tx.sigOk) .sig
-  senderState e false
-  poolGov u e
+  if e.tx.type == 1 then do
+    senderState e false
+    poolGov u e
+  else .ok ()
 
 /-- `executeGovernanceTx` -/
 def execGov (u : List Site) (e : Env) : Outcome Unit := do
@@ -742,22 +799,201 @@ def execGov (u : List Site) (e : Env) : Outcome Unit := do
   else if e.tx.recipient == aergoEnterprise then entExecute u e
   else .reject .recipient
 
-/-- `executeTx` on a governance transaction, up to the receipt. -/
+/-- `executeTx`, up to the receipt; for the other types `contract.Execute` (the VM) is not modelled. -/
 def execute (u : List Site) (e : Env) : Outcome Unit := do
   typesValidate u e
-  senderState e true
-  execGov u e
+  if e.tx.type == 1 then do
+    senderState e true
+    execGov u e
+  else .ok ()
 
 /-! ### The site table (tie T) -/
 
 /-- How an inventory entry of `Aergo.Gen.AssertSites.sites` is accounted for. -/
 inductive SiteClass
   | trap (s : Site)    -- carried by the model as the explicit trap `s`
-  | dom (s : Site)     -- same operand and index as trap `s`, in a branch `s` (or its guard) dominates
+  | dom (s : Site)     -- same operand and index as trap `s`, in a branch that `s` (or its guard) dominates
   | mapIdx             -- index of a Go map: reading never panics; the maps written are non-nil literals
   | stateData          -- operand is a record read from contract storage / a static table, not payload-derived
-  | bounded            -- index bounded by the loop or length test around it, on non-payload data
+  | bounded            -- index bounded by the loop, length test or library contract around it, on non-payload data
   | offPath            -- not on the path of a governance transaction
 deriving DecidableEq, Repr
+
+open SiteClass Site in
+/-- Every entry the `assertsites` extractor reports for the scanned functions, with its class.
+`Props.C14.assert_sites_known` states that the keys are exactly the generated list. -/
+def knownSites : List (String × SiteClass) := [
+  ("types/transaction.go:validate:index:govValidators[string(tx.GetRecipient())]", mapIdx),
+  ("types/transaction.go:ValidateSystemTx:index:unique[encoded]", mapIdx),
+  ("types/transaction.go:ValidateSystemTx:index:unique[encoded]#1", mapIdx),
+  ("types/transaction.go:ValidateSystemTx:index:unique[encoded]#2", mapIdx),
+  ("types/transaction.go:ValidateSystemTx:index:unique[encoded]#3", mapIdx),
+  ("types/transaction.go:validateNameTx:assert:ci.Args[1].(string)", trap tNameUpdTo),
+  ("types/transaction.go:validateNameTx:index:ci.Args[1]", trap tNameUpdTo),
+  ("types/transaction.go:validateNameTx:index:ci.Args[0]", trap tNameOwner0),
+  ("types/transaction.go:_validateNameTx:index:ci.Args[0]", trap tNameCommon0),
+  ("types/account.go:DecodeAddressBytes:index:decodedBytes[0]", bounded),
+  ("types/account.go:DecodeAddressBytes:slice:decodedBytes[1:]", bounded),
+  ("contract/system/validation.go:ValidateSystemTx:slice:ci.Args[1:]", trap sCandSlice),
+  ("contract/system/validation.go:ValidateSystemTx:index:proposal.Candidates[i]", stateData),
+  ("contract/system/validation.go:ValidateSystemTx:index:proposal.Candidates[j]", stateData),
+  ("contract/system/validation.go:ValidateSystemTx:index:proposal.Candidates[i]#1", stateData),
+  ("contract/system/validation.go:parseIDForProposal:index:ci.Args[0]", trap sParseId0),
+  ("contract/system/vote.go:newVoteCmd:slice:ctx.Call.Args[1:]", trap vDaoSlice),
+  ("contract/system/vote.go:newVoteCmd:assert:ctx.Call.Args[0].(string)", trap vDaoId),
+  ("contract/system/vote.go:newVoteCmd:index:ctx.Call.Args[0]", trap vDaoId),
+  ("contract/system/vote.go:newVoteCmd:assert:ctx.Call.Args[1].(string)", trap vDaoVal),
+  ("contract/system/vote.go:newVoteCmd:index:ctx.Call.Args[1]", trap vDaoVal),
+  ("contract/system/vote.go:newVoteCmd:assert:v.(string)", trap vBpCand),
+  ("contract/system/vote.go:deserializeVote:slice:data[:len(data)-pos]", stateData),
+  ("contract/system/vote.go:deserializeVote:slice:data[len(data)-pos:]", stateData),
+  ("contract/system/vote.go:deserializeVote:panic:panic(\"voting data corruption\")", stateData),
+  ("contract/system/vote.go:deserializeVoteEx:slice:data[:8]", stateData),
+  ("contract/system/vote.go:deserializeVoteEx:slice:data[8 : 8+size]", stateData),
+  ("contract/system/vote.go:deserializeVoteEx:slice:data[8+size:]", stateData),
+  ("contract/system/vote.go:deserializeVoteList:slice:data[offset : offset+8]", stateData),
+  ("contract/system/vote.go:deserializeVoteList:slice:data[offset+8 : end]", stateData),
+  ("contract/system/execute.go:SystemContext.arg:index:ctx.Call.Args[i]", offPath),
+  ("contract/system/execute.go:newSysCmd:index:cmds[types.GetOpSysTx(context.Call.Name)]", mapIdx),
+  ("contract/system/execute.go:GetVotes:slice:v.Candidate[offset : offset+PeerIDLength]", offPath),
+  ("contract/system/voteresult.go:VoteResult.SubVote:index:voteResult.rmap[v]", mapIdx),
+  ("contract/system/voteresult.go:VoteResult.SubVote:index:voteResult.rmap[v]#1", trap rSubNil),
+  ("contract/system/voteresult.go:VoteResult.SubVote:slice:vote.Candidate[offset : offset+PeerIDLength]", stateData),
+  ("contract/system/voteresult.go:VoteResult.SubVote:index:voteResult.rmap[pkey]", mapIdx),
+  ("contract/system/voteresult.go:VoteResult.SubVote:index:voteResult.rmap[pkey]#1", trap rSubNil),
+  ("contract/system/voteresult.go:VoteResult.AddVote:index:voteResult.rmap[v]", mapIdx),
+  ("contract/system/voteresult.go:VoteResult.AddVote:index:voteResult.rmap[v]#1", mapIdx),
+  ("contract/system/voteresult.go:VoteResult.AddVote:index:voteResult.rmap[v]#2", mapIdx),
+  ("contract/system/voteresult.go:VoteResult.AddVote:index:voteResult.rmap[v]#3", mapIdx),
+  ("contract/system/voteresult.go:VoteResult.AddVote:slice:vote.Candidate[offset : offset+PeerIDLength]", trap rAddSlice),
+  ("contract/system/voteresult.go:VoteResult.AddVote:index:voteResult.rmap[base58.Encode(key)]", mapIdx),
+  ("contract/system/voteresult.go:VoteResult.AddVote:index:voteResult.rmap[base58.Encode(key)]#1", mapIdx),
+  ("contract/system/voteresult.go:VoteResult.AddVote:index:voteResult.rmap[base58.Encode(key)]#2", mapIdx),
+  ("contract/system/voteresult.go:VoteResult.AddVote:index:voteResult.rmap[base58.Encode(key)]#3", mapIdx),
+  ("contract/system/voteresult.go:VoteResult.Sync:index:resultList.Votes[0]", dom vDaoVal),
+  ("contract/system/voteresult.go:VoteResult.Sync:index:resultList.Votes[0]#1", dom vDaoVal),
+  ("contract/system/voteresult.go:VoteResult.threshold:panic:panic(\"failed to get staking total when calculate bp count\")", stateData),
+  ("contract/system/voteresult.go:loadVoteResult:index:voteResult.rmap[string(v.Candidate)]", mapIdx),
+  ("contract/system/voteresult.go:loadVoteResult:index:voteResult.rmap[base58.Encode(v.Candidate)]", mapIdx),
+  ("contract/system/staking.go:deserializeStaking:slice:data[:8]", stateData),
+  ("contract/system/staking.go:deserializeStaking:slice:data[8:]", stateData),
+  ("contract/name/execute.go:ExecuteNameTx:assert:ci.Args[0].(string)", trap nExCreate0),
+  ("contract/name/execute.go:ExecuteNameTx:index:ci.Args[0]", trap nExCreate0),
+  ("contract/name/execute.go:ExecuteNameTx:assert:ci.Args[0].(string)#1", trap nExUpd0),
+  ("contract/name/execute.go:ExecuteNameTx:index:ci.Args[0]#1", trap nExUpd0),
+  ("contract/name/execute.go:ExecuteNameTx:assert:ci.Args[1].(string)", trap nExUpd1),
+  ("contract/name/execute.go:ExecuteNameTx:index:ci.Args[1]", trap nExUpd1),
+  ("contract/name/execute.go:ExecuteNameTx:assert:ci.Args[0].(string)#2", trap nExOwner0),
+  ("contract/name/execute.go:ExecuteNameTx:index:ci.Args[0]#2", trap nExOwner0),
+  ("contract/name/execute.go:ValidateNameTx:assert:ci.Args[0].(string)", trap nVal0),
+  ("contract/name/execute.go:ValidateNameTx:index:ci.Args[0]", trap nVal0),
+  ("contract/name/name.go:deserializeNameMap:index:data[0]", stateData),
+  ("contract/name/name.go:deserializeNameMap:panic:panic(\"could not deserializeOwner, not supported version\")", stateData),
+  ("contract/name/name.go:deserializeNameMap:slice:data[offset:next]", stateData),
+  ("contract/name/name.go:deserializeNameMap:slice:data[offset:next]#1", stateData),
+  ("contract/name/name.go:deserializeNameMap:slice:data[offset:next]#2", stateData),
+  ("contract/name/name.go:deserializeNameMap:slice:data[offset:next]#3", stateData),
+  ("contract/enterprise/validate.go:ValidateEnterpriseTx:assert:ci.Args[0].(string)", trap eAdmin0),
+  ("contract/enterprise/validate.go:ValidateEnterpriseTx:index:ci.Args[0]", trap eAdmin0),
+  ("contract/enterprise/validate.go:ValidateEnterpriseTx:index:ci.Args[0]#1", dom eAdmin0),
+  ("contract/enterprise/validate.go:ValidateEnterpriseTx:index:ci.Args[0]#2", dom eAdmin0),
+  ("contract/enterprise/validate.go:ValidateEnterpriseTx:index:ci.Args[0]#3", dom eAdmin0),
+  ("contract/enterprise/validate.go:ValidateEnterpriseTx:index:ci.Args[0]#4", dom eAdmin0),
+  ("contract/enterprise/validate.go:ValidateEnterpriseTx:index:context.Args[0]", trap eCtx0),
+  ("contract/enterprise/validate.go:ValidateEnterpriseTx:slice:context.Args[1:]", trap eCtxTail),
+  ("contract/enterprise/validate.go:ValidateEnterpriseTx:index:context.Args[0]#1", trap eCtx0),
+  ("contract/enterprise/validate.go:ValidateEnterpriseTx:index:context.Args[0]#2", trap eCtx0),
+  ("contract/enterprise/validate.go:ValidateEnterpriseTx:index:context.Args[0]#3", dom eCtx0),
+  ("contract/enterprise/validate.go:ValidateEnterpriseTx:index:context.Args[1]", trap eCtx1),
+  ("contract/enterprise/validate.go:ValidateEnterpriseTx:index:context.Args[1]#1", dom eCtx1),
+  ("contract/enterprise/validate.go:ValidateEnterpriseTx:index:context.Args[1]#2", trap eCtx1),
+  ("contract/enterprise/validate.go:ValidateEnterpriseTx:index:context.Args[1]#3", dom eCtx1),
+  ("contract/enterprise/validate.go:ValidateEnterpriseTx:index:ci.Args[0]#5", trap eEnable0),
+  ("contract/enterprise/validate.go:ValidateEnterpriseTx:index:enterpriseKeyDict[strings.ToUpper(ci.Args[0].(string))]", mapIdx),
+  ("contract/enterprise/validate.go:ValidateEnterpriseTx:assert:ci.Args[0].(string)#1", trap eEnable0),
+  ("contract/enterprise/validate.go:ValidateEnterpriseTx:index:ci.Args[0]#6", trap eEnable0),
+  ("contract/enterprise/validate.go:ValidateEnterpriseTx:index:ci.Args[0]#7", dom eEnable0),
+  ("contract/enterprise/validate.go:ValidateEnterpriseTx:index:ci.Args[1]", trap eEnable1),
+  ("contract/enterprise/validate.go:checkArgs:assert:ci.Args[0].(string)", trap eCheckArgs0),
+  ("contract/enterprise/validate.go:checkArgs:index:ci.Args[0]", trap eCheckArgs0),
+  ("contract/enterprise/validate.go:checkArgs:index:enterpriseKeyDict[key]", mapIdx),
+  ("contract/enterprise/validate.go:checkArgs:index:ci.Args[0]#1", dom eCheckArgs0),
+  ("contract/enterprise/validate.go:checkArgs:index:unique[arg]", mapIdx),
+  ("contract/enterprise/validate.go:checkArgs:index:unique[arg]#1", mapIdx),
+  ("contract/enterprise/validate.go:checkRPCPermissions:index:values[0]", trap eRpcVals0),
+  ("contract/enterprise/changecluster.go:ValidateChangeCluster:index:ci.Args[0]", trap eCc0),
+  ("contract/enterprise/changecluster.go:ValidateChangeCluster:index:ci.Args[0]#1", dom eCc0),
+  ("contract/enterprise/changecluster.go:CcArgument.get:index:cc[key]", mapIdx),
+  ("contract/enterprise/changecluster.go:CcArgument.getUint64:index:cc[key]", mapIdx),
+  ("contract/enterprise/execute.go:ExecuteEnterpriseTx:index:context.Args[0]", trap xCtx0),
+  ("contract/enterprise/execute.go:ExecuteEnterpriseTx:index:context.Args[0]#1", dom xCtx0),
+  ("contract/enterprise/execute.go:ExecuteEnterpriseTx:index:context.Args[0]#2", trap xCtx0),
+  ("contract/enterprise/execute.go:ExecuteEnterpriseTx:slice:context.Admins[:i]", bounded),
+  ("contract/enterprise/execute.go:ExecuteEnterpriseTx:slice:context.Admins[i+1:]", bounded),
+  ("contract/enterprise/execute.go:ExecuteEnterpriseTx:index:context.Args[0]#3", dom xCtx0),
+  ("contract/enterprise/execute.go:ExecuteEnterpriseTx:index:context.Args[0]#4", trap xCtx0),
+  ("contract/enterprise/execute.go:ExecuteEnterpriseTx:index:context.Args[0]#5", trap xCtx0),
+  ("contract/enterprise/execute.go:ExecuteEnterpriseTx:index:context.Call.Args[1]", trap xEnable1),
+  ("contract/enterprise/execute.go:ExecuteEnterpriseTx:index:context.ArgsAny[0]", trap xAny0),
+  ("contract/enterprise/admin.go:getAdmins:slice:data[i : i+types.AddressLength]", trap gAdmins),
+  ("contract/enterprise/config.go:Conf.RemoveValue:slice:c.Values[:i]", bounded),
+  ("contract/enterprise/config.go:Conf.RemoveValue:slice:c.Values[i+1:]", bounded),
+  ("contract/enterprise/config.go:Conf.Validate:index:strings.Split(v, \":\")[1]", trap cRpcSplit),
+  ("contract/enterprise/config.go:deserializeConf:slice:strings.Split(string(data), \"\\\\\")[1:]", bounded),
+  ("contract/enterprise/config.go:deserializeConf:index:data[0]", stateData),
+  ("mempool/mempool.go:MemPool.validateTx:assert:rsp.(message.CheckFeeDelegationRsp)", offPath)
+]
+
+open Site in
+/-- All constructors of `Site`. -/
+def allSites : List Site := [tNameUpdTo, tNameOwner0, tNameCommon0, sParseId0, sCandSlice, vDaoSlice, vDaoId, vDaoVal, vBpCand,
+  rAddSlice, rSubNil, nVal0, nExCreate0, nExUpd0, nExUpd1, nExOwner0, eAdmin0, eEnable0, eEnable1, eCtx0, eCtxTail, eCtx1,
+  eCheckArgs0, eRpcVals0, eCc0, cRpcSplit, gAdmins, xCtx0, xEnable1, xAny0]
+
+/-- The functions the extractor is asked to scan (`tools/props.d/C14.json`). -/
+def knownScanned : List String := [
+  "types/transaction.go:transaction.Validate", "types/transaction.go:validate", "types/transaction.go:ValidateSystemTx",
+  "types/transaction.go:validateNameTx", "types/transaction.go:_validateNameTx", "types/transaction.go:transaction.ValidateWithSenderState",
+  "types/transaction.go:validateAllowedChar",
+  "types/account.go:ToAddress", "types/account.go:DecodeAddress", "types/account.go:DecodeAddressBytes",
+  "contract/system/validation.go:ValidateSystemTx", "contract/system/validation.go:checkStakingBefore",
+  "contract/system/validation.go:validateForStaking", "contract/system/validation.go:validateForVote",
+  "contract/system/validation.go:validateForUnstaking", "contract/system/validation.go:parseIDForProposal",
+  "contract/system/validation.go:validateById",
+  "contract/system/vote.go:init", "contract/system/vote.go:initVotingCatalog", "contract/system/vote.go:GetVotingCatalog",
+  "contract/system/vote.go:newVprCmd", "contract/system/vote.go:vprCmd.subVpr", "contract/system/vote.go:vprCmd.addVpr",
+  "contract/system/vote.go:newVoteCmd", "contract/system/vote.go:voteCmd.run", "contract/system/vote.go:voteCmd.updateVote",
+  "contract/system/vote.go:voteCmd.updateVoteResult", "contract/system/vote.go:refreshAllVote", "contract/system/vote.go:GetVote",
+  "contract/system/vote.go:getVote", "contract/system/vote.go:setVote", "contract/system/vote.go:BuildOrderedCandidates",
+  "contract/system/vote.go:GetVoteResult", "contract/system/vote.go:GetRankers", "contract/system/vote.go:serializeVoteList",
+  "contract/system/vote.go:serializeVote", "contract/system/vote.go:serializeVoteEx", "contract/system/vote.go:deserializeVote",
+  "contract/system/vote.go:deserializeVoteEx", "contract/system/vote.go:deserializeVoteList",
+  "contract/system/execute.go:newSystemContext", "contract/system/execute.go:SystemContext.arg",
+  "contract/system/execute.go:SystemContext.updateStaking", "contract/system/execute.go:newSysCmd",
+  "contract/system/execute.go:ExecuteSystemTx", "contract/system/execute.go:GetVotes",
+  "contract/system/voteresult.go:VoteResult.SubVote", "contract/system/voteresult.go:VoteResult.AddVote",
+  "contract/system/voteresult.go:VoteResult.Sync", "contract/system/voteresult.go:VoteResult.threshold",
+  "contract/system/voteresult.go:loadVoteResult",
+  "contract/system/staking.go:newStakeCmd", "contract/system/staking.go:stakeCmd.run", "contract/system/staking.go:newUnstakeCmd",
+  "contract/system/staking.go:unstakeCmd.run", "contract/system/staking.go:deserializeStaking",
+  "contract/name/execute.go:ExecuteNameTx", "contract/name/execute.go:ValidateNameTx", "contract/name/execute.go:SetContractOwner",
+  "contract/name/name.go:CreateName", "contract/name/name.go:UpdateName", "contract/name/name.go:deserializeNameMap",
+  "contract/enterprise/validate.go:ValidateEnterpriseTx", "contract/enterprise/validate.go:checkAdmin",
+  "contract/enterprise/validate.go:checkArgs", "contract/enterprise/validate.go:checkP2PBlackWhite",
+  "contract/enterprise/validate.go:checkAccountWhite", "contract/enterprise/validate.go:checkRPCPermissions",
+  "contract/enterprise/validate.go:checkNone",
+  "contract/enterprise/changecluster.go:ValidateChangeCluster", "contract/enterprise/changecluster.go:CcArgument.get",
+  "contract/enterprise/changecluster.go:CcArgument.getUint64", "contract/enterprise/changecluster.go:CcArgument.parse",
+  "contract/enterprise/execute.go:init", "contract/enterprise/execute.go:EnterpriseContext.IsAdminExist",
+  "contract/enterprise/execute.go:EnterpriseContext.HasConfValue", "contract/enterprise/execute.go:ExecuteEnterpriseTx",
+  "contract/enterprise/execute.go:createSetEvent",
+  "contract/enterprise/admin.go:setAdmins", "contract/enterprise/admin.go:getAdmins",
+  "contract/enterprise/config.go:Conf.RemoveValue", "contract/enterprise/config.go:Conf.Validate",
+  "contract/enterprise/config.go:enableConf", "contract/enterprise/config.go:getConf",
+  "contract/enterprise/config.go:setConfValues", "contract/enterprise/config.go:deserializeConf",
+  "mempool/mempool.go:MemPool.put", "mempool/mempool.go:MemPool.verifyTx", "mempool/mempool.go:MemPool.getNameDest",
+  "mempool/mempool.go:MemPool.validateTx",
+  "chain/chainhandle.go:executeTx", "chain/governance.go:executeGovernanceTx"
+]
 
 end Aergo.Admit
